@@ -51,6 +51,7 @@ var (
 	flagVrt    = flag.String("vrt", "/verif/vrt", "runtime package sources")
 	flagOut    = flag.String("out", "/verif/.work/overlay", "output directory")
 	flagAccess = flag.Bool("access", true, "instrument field accesses")
+	flagChan   = flag.Bool("chan", true, "model channel, select and sync/atomic operations")
 )
 
 func main() {
@@ -145,6 +146,7 @@ type instr struct {
 	funcName   string
 	loopN      map[string]int
 	owners     map[*types.Var]string
+	chans      *chanFacts
 }
 
 func (in *instr) info() *types.Info { return in.pkg.TypesInfo }
@@ -194,6 +196,8 @@ func (in *instr) site(kind string) string {
 }
 
 func (in *instr) rewrite() ([]byte, error) {
+	// facts about channel / atomic operations, taken from the untouched tree
+	in.collectChanFacts()
 	// pass 0: field accesses (needs the original, unmodified tree for type lookups)
 	if in.access {
 		in.instrumentAccesses()
@@ -212,6 +216,9 @@ func (in *instr) rewrite() ([]byte, error) {
 		}
 		return true
 	}, func(c *astutil.Cursor) bool {
+		if *flagChan && in.rewriteChanNode(c) {
+			return true
+		}
 		switch n := c.Node().(type) {
 		case *ast.FuncDecl:
 			in.funcName = enclosing[len(enclosing)-1]
@@ -239,7 +246,7 @@ func (in *instr) rewrite() ([]byte, error) {
 		case *ast.SelectorExpr:
 			if in.isPkgIdent(n.X, "sync") {
 				switch n.Sel.Name {
-				case "Mutex", "RWMutex", "Map", "WaitGroup", "Once":
+				case "Mutex", "RWMutex", "Map", "WaitGroup", "Once", "Cond", "NewCond":
 					in.needVrt = true
 					in.stats["sync_types"]++
 					c.Replace(vrtSel(n.Sel.Name))
@@ -272,6 +279,10 @@ func (in *instr) rewrite() ([]byte, error) {
 		case *ast.RangeStmt:
 			in.needVrt = true
 			in.stats["loops"]++
+			if *flagChan && in.chans.rangeChan[n] {
+				c.Replace(in.rewriteChanRange(n, in.tickStmt()))
+				return true
+			}
 			if in.rewriteMapRange(n) {
 				in.stats["map_ranges"]++
 			}
